@@ -10,6 +10,14 @@ CLAIMED = {
          'generated-input search: every 8-bit operand plane exhaustively on each change (16-bit planes in the thorough tier), 32/64-bit planes by boundary-directed and random generation; each case compared with the exactly rounded rational quotient and, for the other operators, with the built-in expression; UB inside CNL is a failure (UBSan traps caught in-process). Not a proof outside the enumerated planes.',
          'trusts GCC 12 / Clang 14 code generation at -O1, UBSan for UB visibility, __int128 arithmetic as the exact oracle; five listed known findings (rounding bias / negation / abs overflow) are excluded by cause, see known_findings.jsonl',
          'DESIGN.md section 5 C08'),
+ 'C18': ('exhaustive 8/16(/32)-bit enumeration + rapidcheck boundary/pattern/random 64/128-bit values vs naive bit loops and libstdc++ <bit>, under GCC and Clang',
+         'every function of cnl/bit.h, cnl/numeric.h and used_digits on every 8- and 16-bit value (32-bit in the thorough tier), every rotation count 0..2w, and generated 64/128-bit values; two independent oracles (naive loops on unsigned __int128, libstdc++); both compilers because they select different code paths; UB (ctz/clz of zero, shift by width) is caught by UBSan traps in-process',
+         'trusts libstdc++ <bit> only as a cross-check of the naive oracle; GCC 12 / Clang 14, x86-64',
+         'DESIGN.md section 5 C18'),
+ 'C19': ('exhaustive enumeration of <=16(/32)-digit operands + rapidcheck perfect-square-directed generation for wider types; validity predicate r^2 <= x < (r+1)^2 in GMP',
+         'floor-square-root validity predicate (no reference sqrt) on every value of the narrow types and on generated squares, squares+-1, boundary and random values of 64/128-bit, elastic_integer, wide_integer and scaled_integer operands; result digit/exponent checked statically; termination as a loop-iteration bound through hook H3',
+         'termination is approximated by "within 1e5 iterations of the instrumented loops"; values enter and leave wide types through their limb arrays, not CNL arithmetic',
+         'DESIGN.md section 5 C19'),
 }
 
 def main():
